@@ -27,6 +27,6 @@ MANIFEST_ENTRY = dict(
     category='other',
     engine='bounded',
     technique='sidecar contracts on the real functions: wiring / closed-form obligations from the AST discharged by z3 and the ring normaliser where the functions are within reach; bounded run-time contracts with independent oracles for the rest (never counted as proved)',
-    text='Discharged from the real source on every run (all values, stated small shapes): memo key injective, window = hypergeometric support, weight formula (gammaln axiom), refusal guards and fold wrapping of project; _project_one_axis entry-wise and mask-wise on 1-3-D shapes (weights by contract). Bounded run-time contracts (never counted as proved): Projection weights exhaustively for 1<=m<=n<=40 against exact rationals, masks, folded, two-stage and axis-order identities.',
+    text='Discharged from the real source on every run (all values, stated small shapes): memo key injective, window = hypergeometric support, weight formula (gammaln axiom), refusal guards and fold wrapping of project; _project_one_axis entry-wise and mask-wise on 1-3-D shapes (weights by contract; versions branching on entries followed). Bounded run-time contracts (never counted as proved): Projection weights exhaustively for 1<=m<=n<=40 against exact rationals, masks, folded, two-stage and axis-order identities.',
     note='bounded: see coverage.bounded.drivers[].bound in the evidence file for the exact domain of every driver',
 )
